@@ -2485,6 +2485,8 @@ function visitors.Assign(context, node)
       if symbol.staticstorage then -- assign of an external variable trigger side effects
         context:mark_funcscope_sideeffect()
       end
+    else -- store through a field, an index or a pointer: it may reach memory visible outside
+      context:mark_funcscope_sideeffect()
     end
     if not valnode and valtype and valtype.is_niltype then
       varnode:raisef("variable assignment at index '%d' is assigning to nothing in the expression", i)
